@@ -512,9 +512,15 @@ impl<P: ProcessRun> Run<'_, P> {
         metrics: &mut RunMetrics,
     ) -> Result<(), Failed> {
         for uri in task.tal.uris() {
-            let cert = match self.load_ta(uri, task.tal.info())? {
-                Some(cert) => cert,
-                _ => continue,
+            let cert = match self.load_ta(uri, task.tal.info()) {
+                Ok(Some(cert)) => cert,
+                Ok(None) => continue,
+                Err(_) => {
+                    // Something fatal happened accessing the store. Don’t
+                    // let the run pass as successful.
+                    self.run_failed(RunFailed::fatal());
+                    return Err(Failed)
+                }
             };
             if cert.subject_public_key_info() != task.tal.key_info() {
                 warn!(
@@ -537,9 +543,16 @@ impl<P: ProcessRun> Run<'_, P> {
             };
             debug!("Found valid trust anchor {uri}. Processing.");
 
-            match self.processor.process_ta(
+            let processor = match self.processor.process_ta(
                 task.tal, uri, &cert, cert.tal
-            )? {
+            ) {
+                Ok(processor) => processor,
+                Err(_) => {
+                    self.run_failed(RunFailed::fatal());
+                    return Err(Failed)
+                }
+            };
+            match processor {
                 Some(processor) => {
                     return self.process_ca_task(
                         CaTask {
